@@ -333,6 +333,10 @@ impl LogState {
                                     logs::meta(g.kind(), &relname, Some(g.pid()));
                                 } else if !self.already.contains(&fixname) {
                                     logs::meta("do", &relname, Some(g.pid()));
+                                    // (a header was shown: what follows needs
+                                    // its "resumed", also if that log is empty)
+                                    interrupted += 1;
+                                    lines_written += 1;
                                 }
                                 if matches.is_present("recursive") {
                                     if let Some((_, loglock, _)) = info.as_mut() {
